@@ -145,6 +145,10 @@ func (p *PackageProgress) stageStreamData() error {
 		}()
 		offset, dataLen := stream.GetDataOffsetAndLen()
 		pack.Offset = offset
+		if oldLen, ok := pack.OffsetRecord[offset]; ok {
+			// 重传的数据块不能重复计入已接收大小
+			pack.CurrentSize -= uint32(oldLen)
+		}
 		pack.OffsetRecord[offset] = dataLen
 		pack.OffsetDataRecord[offset] = p.historyData[headLen : headLen+bodyLen]
 		pack.CurrentSize += uint32(bodyLen)
